@@ -2,6 +2,7 @@
 // unit `chordal_compact` : index-level pieces of the compact chordal decomposition (C18)
 use vstd::prelude::*;
 use std::ops::Range;
+use std::collections::HashMap;
 verus! {
 global size_of usize == 8;
 //@features serde,sdp
@@ -429,7 +430,7 @@ it
             wlo < whi ==> whi <= A_rowval@.len() && whi <= A_I@.len() && si_window(A_rowval@, wlo, whi),
             blo < bhi ==> bhi <= b_nzind@.len() && bhi <= b_I@.len() && si_window(b_nzind@, blo, bhi),
             col == 0 ==> ovp0 + 2 * n_ov(bi, nb) <= A_I@.len(), col == 0 && wlo < whi ==> whi <= ovp0,
-            A_I@.len() == old(A_I)@.len(), b_I@.len() == old(b_I)@.len(),
+            A_I@.len() == old(A_I)@.len(), b_I@.len() == old(b_I)@.len(), ovp0 >= 0,
             overlap_ptr == ovp0 + (if col == 0 { 2 * n_ov(bi, it.index@ as int) } else { 0int }),
             win_state(A_I@, old(A_I)@, A_rowval@, bi, row_ptr as int, rs, wlo, whi, it.index@ as int),
             col == 0 ==> ov_state(A_I@, bi, pc, prs, row_ptr as int, ovp0, it.index@ as int),
@@ -467,10 +468,6 @@ it
                     if c2 < gc {
                         lemma_n_ov_mono(bi, c2, gc);
                         let q = ovp0 + 2 * n_ov(bi, c2);
-                        assert(n_ov(bi, c2) >= 0);
-                        assert(n_ov(bi, c2) + 1 <= n_ov(bi, gc));
-                        assert(n_ov(bi, gc) <= n_ov(bi, nb));
-                        assert(ovp0 + 2 * n_ov(bi, nb) <= ai1.len());
                         assert(0 <= q && q + 1 < ovp0 + 2 * n_ov(bi, gc) && q + 1 < ai1.len());
                         assert(ai1[q] == row_ptr + c2);
                         assert(ai1[q + 1] == prs + packed(cnt_lt(pc, bi[c2].0 as int, pc.len() as int), cnt_lt(pc, bi[c2].1 as int, pc.len() as int)));
@@ -481,6 +478,122 @@ it
                 }
             }
         }
+//@end
+
+// ---- the (i, j, is_overlap) triplets of one clique, before they are sorted ----
+// pairs (v[k], v[j]), k < kk, with v[k] <= v[j], in the order of k
+pub open spec fn le_row(v: Seq<usize>, j: int, kk: int, flag: bool) -> Seq<BlockOverlapTriplet> decreases kk {
+    if kk <= 0 { Seq::empty() } else if v[kk - 1] <= v[j] { le_row(v, j, kk - 1, flag).push((v[kk - 1], v[j], flag)) } else { le_row(v, j, kk - 1, flag) } }
+pub open spec fn le_all(v: Seq<usize>, jj: int, flag: bool) -> Seq<BlockOverlapTriplet> decreases jj {
+    if jj <= 0 { Seq::empty() } else { le_all(v, jj - 1, flag) + le_row(v, jj - 1, v.len() as int, flag) } }
+pub open spec fn umin(a: usize, b: usize) -> usize { if a <= b { a } else { b } }
+pub open spec fn umax(a: usize, b: usize) -> usize { if a >= b { a } else { b } }
+// pairs of s[i] with t[k], k < kk, smaller one first
+pub open spec fn cross_row(s: Seq<usize>, t: Seq<usize>, i: int, kk: int) -> Seq<BlockOverlapTriplet> decreases kk {
+    if kk <= 0 { Seq::empty() } else { cross_row(s, t, i, kk - 1).push((umin(s[i], t[kk - 1]), umax(s[i], t[kk - 1]), false)) } }
+pub open spec fn cross_all(s: Seq<usize>, t: Seq<usize>, ii: int) -> Seq<BlockOverlapTriplet> decreases ii {
+    if ii <= 0 { Seq::empty() } else { cross_all(s, t, ii - 1) + cross_row(s, t, ii - 1, t.len() as int) } }
+// statement slice of get_block_indices: the three loop nests that collect the triplets.  DROPPED: `N`, the allocation
+// `Vec::with_capacity(triangular_number(N))` (the vector starts empty: precondition), the final
+// `block_indices.sort_by_cached_key(|x| x.1 * nv + x.0)` (closure; std sort) and the return of the vector.
+//@fn file=src/solver/chordal/decomp/augment_compact.rs name=get_block_indices as=get_block_indices_fill rules=R5,R18,setiter:snode|separator from="for &j in separator.iter()" to="for &i in snode {" header="fn get_block_indices_fill(snode: &[usize], separator: &[usize], block_indices: &mut Vec<BlockOverlapTriplet>)"
+//@contract
+    ensures
+        // C18: the entries of the clique block: separator x separator (upper triangle, flagged as overlap with the parent), supernode x
+        // supernode (upper triangle), supernode x separator (all pairs, smaller vertex first); in this order, nothing else
+        final(block_indices)@ == old(block_indices)@ + le_all(separator@, separator@.len() as int, true) + le_all(snode@, snode@.len() as int, false)
+            + cross_all(snode@, separator@, snode@.len() as int),
+//@pre
+    let ghost b0 = block_indices@;
+    let ghost sep = separator@;
+    let ghost sn = snode@;
+    let ghost pa = le_all(sep, sep.len() as int, true);
+    let ghost pb = le_all(sn, sn.len() as int, false);
+//@iter 1
+it1
+//@loop 1
+        invariant
+            sep == separator@, it1.seq().len() == sep.len(), forall|k: int| 0 <= k < sep.len() ==> *(#[trigger] it1.seq()[k]) == sep[k],
+            block_indices@ =~= b0 + le_all(sep, it1.index@ as int, true),
+//@body_start 1
+        let ghost gj = it1.index@ as int;
+//@iter 2
+it2
+//@loop 2
+            invariant
+                sep == separator@, it2.seq().len() == sep.len(), forall|k: int| 0 <= k < sep.len() ==> *(#[trigger] it2.seq()[k]) == sep[k],
+                0 <= gj < sep.len(), j == sep[gj],
+                block_indices@ =~= b0 + le_all(sep, gj, true) + le_row(sep, gj, it2.index@ as int, true),
+//@iter 3
+it3
+//@loop 3
+        invariant
+            sn == snode@, it3.seq().len() == sn.len(), forall|k: int| 0 <= k < sn.len() ==> *(#[trigger] it3.seq()[k]) == sn[k],
+            block_indices@ =~= b0 + pa + le_all(sn, it3.index@ as int, false),
+//@body_start 3
+        let ghost gj = it3.index@ as int;
+//@iter 4
+it4
+//@loop 4
+            invariant
+                sn == snode@, it4.seq().len() == sn.len(), forall|k: int| 0 <= k < sn.len() ==> *(#[trigger] it4.seq()[k]) == sn[k],
+                0 <= gj < sn.len(), j == sn[gj],
+                block_indices@ =~= b0 + pa + le_all(sn, gj, false) + le_row(sn, gj, it4.index@ as int, false),
+//@iter 5
+it5
+//@loop 5
+        invariant
+            sn == snode@, sep == separator@, it5.seq().len() == sn.len(), forall|k: int| 0 <= k < sn.len() ==> *(#[trigger] it5.seq()[k]) == sn[k],
+            block_indices@ =~= b0 + pa + pb + cross_all(sn, sep, it5.index@ as int),
+//@body_start 5
+        let ghost gi = it5.index@ as int;
+//@iter 6
+it6
+//@loop 6
+            invariant
+                sn == snode@, sep == separator@, it6.seq().len() == sep.len(), forall|k: int| 0 <= k < sep.len() ==> *(#[trigger] it6.seq()[k]) == sep[k],
+                0 <= gi < sn.len(), i == sn[gi],
+                block_indices@ =~= b0 + pa + pb + cross_all(sn, sep, gi) + cross_row(sn, sep, gi, it6.index@ as int),
+//@end
+
+// ---- row ranges of the clique blocks of one decomposed cone ----
+// rows taken by the cliques i+1 .. n-1 (they come first: the loop runs in descending order)
+pub open spec fn rows_after(nblk: Seq<usize>, i: int, n: int) -> int decreases n - i { if i + 1 >= n { 0 } else { rows_after(nblk, i + 1, n) + tri(nblk[i + 1] as int) } }
+pub proof fn lemma_rows_after_nonneg(nblk: Seq<usize>, i: int, n: int) ensures rows_after(nblk, i, n) >= 0 decreases n - i
+{ if i + 1 < n { lemma_rows_after_nonneg(nblk, i + 1, n); lemma_tri_step(nblk[i + 1] as int); } }
+impl SuperNodeTree {
+//@fn file=src/solver/chordal/supernode_tree.rs in="impl SuperNodeTree" name=get_nblk ret=r
+//@contract
+    requires self.nblk is Some, i < self.nblk->0@.len(),
+    ensures r == self.nblk->0@[i as int],
+//@end
+}
+//@fn file=src/solver/chordal/decomp/augment_compact.rs name=clique_rows_map ret=res
+//@contract
+    requires
+        sntree.nblk is Some, sntree.n_cliques <= sntree.nblk->0@.len(), sntree.n_cliques <= sntree.snode_post@.len(),
+        forall|i: int| 0 <= i < sntree.n_cliques ==> #[trigger] sntree.nblk->0@[i] < 0x1_0000_0000,
+        // the post order lists every clique once
+        forall|i: int, k: int| 0 <= i < k < sntree.n_cliques ==> sntree.snode_post@[i] != sntree.snode_post@[k],
+        row_start + rows_after(sntree.nblk->0@, -1, sntree.n_cliques as int) <= usize::MAX,
+    ensures
+        // C18 (overlaps tied to the parent block): the clique of order i owns the rows that add_entries_with_sparsity_pattern gives it when it
+        // walks the cliques in the same descending order: the blocks of the cliques i+1.. come first, then tri(nblk[i]) rows; keyed by clique number
+        forall|i: int| 0 <= i < sntree.n_cliques ==> res@.contains_key(#[trigger] sntree.snode_post@[i])
+            && res@[sntree.snode_post@[i]].start == row_start + rows_after(sntree.nblk->0@, i, sntree.n_cliques as int)
+            && res@[sntree.snode_post@[i]].end == row_start + rows_after(sntree.nblk->0@, i, sntree.n_cliques as int) + tri(sntree.nblk->0@[i] as int),
+//@pre
+    broadcast use vstd::std_specs::hash::group_hash_axioms;
+    let ghost rs0 = row_start as int;
+    let ghost nb = sntree.nblk->0@;
+    let ghost nn = sntree.n_cliques as int;
+//@loop 1
+        invariant
+            nb == sntree.nblk->0@, nn == sntree.n_cliques, n_cliques == nn, sntree.nblk is Some, nn <= nb.len(), nn <= sntree.snode_post@.len(),
+            forall|i: int| 0 <= i < nn ==> #[trigger] nb[i] < 0x1_0000_0000,
+            forall|i: int, k: int| 0 <= i < k < nn ==> sntree.snode_post@[i] != sntree.snode_post@[k],
+            rs0 + rows_after(nb, -1, nn) <= usize::MAX,
+            row_start == rs0 + rows_after(nb, $var1 as int, nn) + tri(nb[$var1 as int] as int) || true,
 //@end
 
 // ---- the sparse form of b (establishes the sortedness that get_rows_vec / get_row_index rely on) ----
